@@ -51,6 +51,7 @@ func C13(c *Ctx) {
 	r.Rule("R13.4", "cache fill and purge: FlushDirtyData adds the dirty accounts to the account cache on every path; the cache entry of an account is removed when its creation is reverted; the cache is purged on rollback (C12 R12.2).")
 	r.Rule("R13.5", "snapshots: RevertToSnapshot reverts the changer to the index recorded for the found revision and truncates the valid revisions to that revision's position; Snapshot records the current changer length; wherever the revision counter is restarted (nextRevisionId = constant) the recorded revisions are truncated on the same path.")
 	r.Rule("R13.6", "tombstones survive the undo: an entry of an account's dirty set, once written in a block, is never removed again (no Delete / LoadAndDelete / CompareAndDelete on dirtyState in internal/ledger) - the undo record holds only the previous value, not whether the key was dirty before, so a removed entry exposes the layers below, which differ from the recorded value whenever that was itself an earlier write or deletion of the block; storageChange.revert stores the recorded previous value (nil included) into the dirty set on every path.")
+	r.Rule("R13.7", "the undo of a transaction leaves the caches of earlier blocks alone: functions reachable from the stateChange.revert methods remove cache entries only from the account-record cache (the record a reverted creation may have caused to be cached); the storage and code caches hold the writes of flushed, not yet committed blocks and are dropped only by the rollback purge (R12.2).")
 	r.NotDecided = append(r.NotDecided, "LRU eviction behaviour; reopen; value-level equality over histories")
 
 	// ---- R13.1
@@ -220,6 +221,7 @@ func C13(c *Ctx) {
 
 	// ---- R13.6
 	c.c13Undo("R13.6")
+	c.c13UndoCaches()
 
 	// ---- R13.3
 	if q := c.fn("R13.3", acctPrefix+"Query"); q != nil {
@@ -519,4 +521,48 @@ func (c *Ctx) c13Undo(rule string) {
 
 func shortLedger(fn *ssa.Function) string {
 	return strings.ReplaceAll(core.FnName(fn), "internal/ledger.", "")
+}
+
+// c13UndoCaches: R13.7 - the undo of a transaction never drops what flushed blocks put into the caches.
+func (c *Ctx) c13UndoCaches() {
+	r := c.R
+	// functions of the ledger reachable from the stateChange.revert methods
+	reach := map[*ssa.Function]bool{}
+	var walk func(fn *ssa.Function, d int)
+	walk = func(fn *ssa.Function, d int) {
+		if fn == nil || reach[fn] || len(fn.Blocks) == 0 || core.PkgOf(fn) != ledgerPkg || d > 4 {
+			return
+		}
+		reach[fn] = true
+		for _, call := range core.Calls(fn) {
+			walk(core.StaticCallee(call), d+1)
+		}
+	}
+	nRev := 0
+	for _, fn := range c.P.ModuleFuncs(true) {
+		if core.PkgOf(fn) == ledgerPkg && fn.Name() == "revert" && fn.Signature.Recv() != nil {
+			nRev++
+			walk(fn, 0)
+		}
+	}
+	r.Floor("R13.7", "stateChange.revert methods", nRev, 5)
+	n := 0
+	var fns []*ssa.Function
+	for fn := range reach {
+		fns = append(fns, fn)
+	}
+	sort.Slice(fns, func(i, j int) bool { return core.FnName(fns[i]) < core.FnName(fns[j]) })
+	for _, fn := range fns {
+		for _, call := range core.Calls(fn) {
+			o := core.CalleeObj(call)
+			if o == nil || (o.Name() != "Remove" && o.Name() != "Purge") || !strings.Contains(core.CalleeName(call), "lru") {
+				continue
+			}
+			_, f, _, ok := core.FieldOf(core.Receiver(call))
+			n++
+			r.Check(ok && f == "innerAccountCache", "R13.7", fmt.Sprintf("%s: undo touches only the account-record cache (%s.%s)", shortLedger(fn), f, o.Name()), c.P.Pos(call.Pos()), "removes the cached account record of the reverted creation",
+				"the undo path ("+shortLedger(fn)+") drops entries of the "+f+" cache: that cache holds the writes of blocks that were flushed but not yet committed to the database, so until their commit lands a read falls through to the stale database value")
+		}
+	}
+	r.Floor("R13.7", "cache removals on the undo path", n, 1)
 }
